@@ -37,6 +37,14 @@ def corpus():
         {'target': t, 'spec': ['Dict', False, [[['T', 'T', [['[', ['Str', 'a']], ['[', ['Str', 'b']]]], ['Str', 'l.0']]]]},
         {'target': t, 'spec': ['Ref', 'r', ['Tuple', [['Str', 'a'], ['Fn', ['id']]]]]},
         {'target': t, 'spec': ['Invoke', ['Fn', ['len']], [[True, [['Str', 'l']]]]]},
+        # keyword parts: a name given again later is evaluated only there; star dicts are spliced in where they stand
+        {'target': t, 'spec': ['Invoke', ['Fn', ['rec']], [['S', [['Tuple', [['Fn', ['probe', 1]], ['Val', 1]]]], [['a', ['Tuple', [['Fn', ['probe', 2]], ['Val', 2]]]]]],
+                                                             ['C', [['Lit', 10]], [['b', ['Lit', 'cb']]]],
+                                                             ['S', [], [['a', ['Tuple', [['Fn', ['probe', 3]], ['Val', 3]]]]]]]]},
+        {'target': t, 'spec': ['Invoke', ['Fn', ['rec']], [['C', [], [['a', ['Lit', 'ca']]]],
+                                                             ['*', [['Val', {'k': 'list', 'id': 0, 'items': [5, 6]}]], [['', ['Val', {'k': 'dict', 'od': False, 'id': 0, 'items': [['a', 'sa'], ['b', 'sb']]}]]]],
+                                                             ['S', [['T', 'T', []]], [['b', ['Val', 4]]]]]]},
+        {'target': t, 'spec': ['Call', ['Fn', ['rec']], [['Lit', 1]], [['a', ['Spec', ['Tuple', [['Fn', ['probe', 1]], ['T', 'T', []]]], []]], ['b', ['Lit', 7]]]]},
     ]
 
 
